@@ -148,7 +148,7 @@ func oracleC02CLI(p *Pair, env *Env, a [][]byte) *Failure {
 
 // tokens for synthetic printer-like text: every neighbour combination matters for the passes
 var passTokens = []string{`"`, `\"`, `\\`, `\x5c`, `a`, `b`, ` `, `\t\n\f\r `, `[`, `]`, `[^`, `\s`, `-`, `~`, `\-`, `(`, `)`, `(?:`, `(?i:`, `(?s:`, `(?-s:`, `(?m:`, `(?i)`, `(?m)`, `(?i-s:`, `(?m-s:`, `(?im-s:`, `(?s-i:`, `(?-s)`, `(?U:`,
-	`\(`, `\)`, `|`, `^`, `$`, `.`, `*`, `?`, "\t", "\n", "\x01", "é", "\xff", `\x{e9}`, `\.`, `{2}`, `\t`, `\n`, `!`, `x`, `\`}
+	`\(`, `\)`, `\[`, `\]`, `|`, `^`, `$`, `.`, `*`, `?`, "\t", "\n", "\x01", "é", "\xff", `\x{e9}`, `\.`, `{2}`, `\t`, `\n`, `!`, `x`, `\`}
 
 func genPassText(r *rand.Rand) string {
 	n := 1 + r.Intn(9)
